@@ -5,6 +5,7 @@ import Asn1.Generated
 import Proofs.Parse
 import Proofs.Fuel
 import Proofs.RoundTrip
+import Proofs.Kernels
 
 namespace Asn1.C01
 
@@ -48,5 +49,30 @@ example :
     t.reg false Generated.berEnc false = true ∧ t.WF = true ∧ HasType t v = true ∧
       (encItem Generated.berEnc { defMode := false, maxChunk := 1 } t v).toOption.isSome = true := by
   decide +kernel
+
+/-! ### at the source level: kernels translated from /repo on this run (gen/py2lean.py → Asn1/GenKernels.lean) -/
+
+/-- **OBJECT IDENTIFIER contents round-trip through the source's own loops**: what the body of
+    `ObjectIdentifierEncoder.encodeValue` writes for a tuple of arcs, the body of
+    `ObjectIdentifierPayloadDecoder.valueDecoder` reads back as those arcs — every arc list the encoder
+    accepts, arcs of any size -/
+theorem source_oid_roundtrip (arcs : List Nat) (c : Bytes) (h : oidToContent arcs = some c) :
+    GenK.oidEncode (Kernels.ints arcs) = .ok (Kernels.bytesInts c, false, false) ∧
+    GenK.oidDecode (Kernels.bytesInts c) = .ok (Kernels.ints arcs) := by
+  have hd := oidFromContent_oidToContent arcs c h
+  have hne : c ≠ [] := by
+    intro hc; subst hc; simp [oidFromContent] at hd
+  refine ⟨by rw [Kernels.oidEncode_kernel, h]; rfl, ?_⟩
+  rw [Kernels.oidDecode_kernel c hne, hd]
+  rfl
+
+/-- **INTEGER contents**: `to_bytes(value, signed=True)` as it is in the source writes octets that the
+    decoder model's `from_bytes` reads back as the value, for every integer -/
+theorem source_integer_roundtrip (z : Int) :
+    ∃ c : Bytes, GenK.toBytes z true 0 = .ok (Kernels.bytesInts c) ∧ intFromBytes c = z :=
+  ⟨intToBytes z, Kernels.toBytes_kernel z, intFromBytes_intToBytes z⟩
+
+example : GenK.oidDecode [43, 6, 1, 4, 1, 134, 141, 31] = .ok [1, 3, 6, 1, 4, 1, 99999] := by rfl
+
 
 end Asn1.C01
